@@ -51,16 +51,17 @@ type Kernel struct {
 	draining bool
 	ctl      uint64 // the controller goroutine never parks
 
-	Step      int
-	evHash    uint64
-	evCount   int
-	GateN     int  // gate passes (evaluations) so far
-	lockHeld  bool // Engine.mu is held by a task of the code under test (engine.lock / engine.unlocked hooks)
-	lockBy    string
-	muHeld    map[string]string // simhook.Mutex instances (handle.mu) held right now -> holder
-	muFree    map[string]chan struct{}
-	engFree   chan struct{} // teardown: closed when Engine.mu is released
-	Ambiguous bool
+	Step       int
+	evHash     uint64
+	evCount    int
+	GateN      int  // gate passes (evaluations) so far
+	lockHeld   bool // Engine.mu is held by a task of the code under test (engine.lock / engine.unlocked hooks)
+	lockBy     string
+	muHeld     map[string]string // simhook.Mutex instances (handle.mu) held right now -> holder
+	muFree     map[string]chan struct{}
+	engFree    chan struct{}  // teardown: closed when Engine.mu is released
+	drainCalls map[uint64]int // teardown: hook points passed per goroutine
+	Ambiguous  bool
 }
 
 // alwaysPark: after these points the task would otherwise run on in parallel with a task it has just
@@ -83,7 +84,7 @@ func goid() uint64 {
 // NewKernel installs the kernel as the simhook of /repo. Call from the bubble's root goroutine.
 func NewKernel(t *tape.Tape, res *core.RunResult) *Kernel {
 	GateBudget = core.Scale(50000, 200000)
-	k := &Kernel{T: t, Res: res, tasks: map[uint64]*Task{}, roleN: map[string]int{}, pass: map[string]bool{}, muHeld: map[string]string{}, muFree: map[string]chan struct{}{}, ctl: goid(), evHash: 1469598103934665603}
+	k := &Kernel{T: t, Res: res, tasks: map[uint64]*Task{}, roleN: map[string]int{}, pass: map[string]bool{}, muHeld: map[string]string{}, muFree: map[string]chan struct{}{}, drainCalls: map[uint64]int{}, ctl: goid(), evHash: 1469598103934665603}
 	simhook.Set(k.Park)
 	return k
 }
@@ -102,7 +103,10 @@ func (k *Kernel) Drain() {
 	}
 }
 
-func (k *Kernel) Uninstall() { simhook.Set(nil) }
+// Uninstall is left to the bubble (run.InBubble removes the hook once every goroutine of the bubble has
+// ended or is blocked for good): tasks that still run during the teardown must keep meeting the kernel,
+// which is what stops one that never ends.
+func (k *Kernel) Uninstall() {}
 
 func (k *Kernel) PassThrough(points ...string) {
 	k.mu.Lock()
@@ -161,6 +165,16 @@ func (k *Kernel) Park(point string) {
 		return
 	}
 	if k.draining {
+		// a task that passes hook points for ever after everything was halted and cancelled would keep the
+		// bubble (and the worker) from ending: stop it and tell the session
+		k.drainCalls[gid]++
+		if k.drainCalls[gid] > 200000 {
+			if k.Res != nil && k.Res.Runaway == "" {
+				k.Res.Runaway = point
+			}
+			k.mu.Unlock()
+			select {}
+		}
 		// teardown: everything runs free, but still nobody may wait inside sync.Mutex.Lock (the bubble could
 		// not end: such a wait is not "durably blocked"); wait on a channel until the mutex is free
 		for point == "mutex.lock" {
